@@ -351,7 +351,8 @@ def write_resilient(prog, nptdms, version, data, index, by_path=None, first_mode
                     except (ValueError, TypeError, OverflowError) as ex:
                         rejected += 1
                         REJECTION_KINDS.append(type(ex).__name__)
-            mode = "a"
+            # later sessions append: every mode string that appends ('a' and 'a+' alternate)
+            mode = "a+" if len(accepted) % 2 == 0 else "a"
             accepted.append(acc)
     except Exception as ex:  # noqa
         return accepted, rejected, ex
